@@ -59,7 +59,7 @@ func init() {
 			"jt808.(*BodyProperty).decode", "jt808.(*Header).decode", "jt808.(*JTMessage).Decode",
 			"utils.CreateVerifyCode", "utils.Bcd2Dec", "utils.bcdConvert", "utils.nibbleToHexChar",
 		},
-		Decided: "unescape accepts exactly the strings with both delimiters and valid escape pairs (one tolerated trailing 0x7d) and returns the unescaped payload " +
+		Decided: "general acceptance (frames with escapes included), over the ghost unescaped text u of Decode: a frame is accepted iff it is well-formed (delimiters, escape pairs) and u passes the XOR, header-length and body-length checks, and every decoded field is read from u at the offsets of the standard; unescape accepts exactly the strings with both delimiters and valid escape pairs (one tolerated trailing 0x7d) and returns the unescaped payload " +
 			"(content clause over a recursive counting function, two induction lemmas); Header.decode / BodyProperty.decode accept exactly complete headers and " +
 			"return every field as the standard lays it out; Decode composes them with the XOR and length checks; Bcd2Dec renders hex digits",
 		Undecided: []string{"for frames that contain escape pairs the field clauses of Decode are stated over the unescaped payload returned by unescape (whose content clause is proved), not re-expressed over the raw frame"},
